@@ -125,6 +125,14 @@ impl<'m> IrConv<'m> {
                     // e.g. `float min(float, int)`: a mixed signature has no single operand type
                     return unsup("IntrinsicMixedParams");
                 }
+                // the IR's declared result type must be the one both evaluators (and `Ast.builtinRet` of the Lean model, hypothesis
+                // of `Ir.typeOf`) read for the HLSL built-in of that name.  rssl declares `M firstbithigh(M)` / `M firstbitlow(M)`
+                // also for int (result int); the evaluators read them as uint for every integer operand (DXC's table), the
+                // documentation says "same as the operand".  Which one HLSL means cannot be decided here: outside the modelled
+                // subset, counted (reached through `firstbitlow(max(2u, x))`: max / min / clamp have no uint overload in rssl).
+                if T::parse(tys[0].atom()).map(|t0| builtin_ret(&name, t0)) != Some(ret) {
+                    return unsup("IntrinsicRetReading");
+                }
                 hist.add(&format!("intr:{}", name));
                 let mut v = vec![a(&name), a(ret.name()), l(tys)];
                 for x in args {
@@ -175,8 +183,11 @@ impl<'m> IrConv<'m> {
     }
 
     pub fn stmt(&mut self, s: &ir::Statement, hist: &mut Hist) -> Sx {
-        if !s.attributes.is_empty() {
-            return unsup("StatementAttribute");
+        // statement attributes ([branch], [flatten], [unroll(n)], [loop], [fastopt], [allow_uav_condition]) are hints without
+        // meaning: both evaluators and the Lean model see the statement without them; that the exporter keeps them on the
+        // same statements in the same order is checked separately (`ir_stmt_attrs` / `ast_stmt_attrs`)
+        for at in &s.attributes {
+            hist.add(&format!("stmt-attr:{}", ir_attr_name(at)));
         }
         match &s.kind {
             ir::StatementKind::Expression(e) => {
@@ -445,10 +456,74 @@ fn ast_vardef(d: &ast::VarDef) -> Option<Vec<Sx>> {
     Some(v)
 }
 
-pub fn ast_stmt(s: &ast::Statement) -> Sx {
-    if !s.attributes.is_empty() {
-        return unsup("Attribute");
+pub fn ir_attr_name(at: &ir::StatementAttribute) -> String {
+    match at {
+        ir::StatementAttribute::Branch => "branch".into(),
+        ir::StatementAttribute::Flatten => "flatten".into(),
+        ir::StatementAttribute::Unroll(None) => "unroll".into(),
+        ir::StatementAttribute::Unroll(Some(v)) => format!("unroll({})", v),
+        ir::StatementAttribute::Loop => "loop".into(),
+        ir::StatementAttribute::Fastopt => "fastopt".into(),
+        ir::StatementAttribute::AllowUavCondition => "allow_uav_condition".into(),
     }
+}
+
+/// attributes of the statements of a block in pre-order, each with the kind of statement it sits on (`IfElse:branch`)
+pub fn ir_stmt_attrs(b: &ir::ScopeBlock, out: &mut Vec<String>) {
+    for s in &b.0 {
+        let d = format!("{:?}", s.kind);
+        let kind = d.split(|c: char| !c.is_alphanumeric()).next().unwrap_or("").to_string();
+        for at in &s.attributes {
+            out.push(format!("{}:{}", kind, ir_attr_name(at)));
+        }
+        match &s.kind {
+            ir::StatementKind::Block(b) | ir::StatementKind::If(_, b) | ir::StatementKind::While(_, b) | ir::StatementKind::DoWhile(b, _) | ir::StatementKind::Switch(_, b) | ir::StatementKind::For(_, _, _, b) => ir_stmt_attrs(b, out),
+            ir::StatementKind::IfElse(_, t, f) => {
+                ir_stmt_attrs(t, out);
+                ir_stmt_attrs(f, out);
+            }
+            _ => {}
+        }
+    }
+}
+
+pub fn ast_stmt_attrs(s: &ast::Statement, out: &mut Vec<String>) {
+    let d = format!("{:?}", s.kind);
+    let kind = d.split(|c: char| !c.is_alphanumeric()).next().unwrap_or("").to_string();
+    for at in &s.attributes {
+        let name = at.name.iter().map(|n| n.node.clone()).collect::<Vec<_>>().join("::");
+        let args: Vec<String> = at
+            .arguments
+            .iter()
+            .map(|e| match &e.node {
+                ast::Expression::Literal(ast::Literal::IntUntyped(v)) => v.to_string(),
+                _ => "?".to_string(),
+            })
+            .collect();
+        out.push(if args.is_empty() { format!("{}:{}", kind, name) } else { format!("{}:{}({})", kind, name, args.join(",")) });
+    }
+    match &s.kind {
+        ast::StatementKind::Block(b) => b.iter().for_each(|x| ast_stmt_attrs(x, out)),
+        ast::StatementKind::If(_, b) | ast::StatementKind::While(_, b) | ast::StatementKind::DoWhile(b, _) | ast::StatementKind::Switch(_, b) | ast::StatementKind::For(_, _, _, b) => ast_stmt_attrs_body(b, out),
+        ast::StatementKind::IfElse(_, t, f) => {
+            ast_stmt_attrs_body(t, out);
+            ast_stmt_attrs_body(f, out);
+        }
+        ast::StatementKind::CaseLabel(_, st) | ast::StatementKind::DefaultLabel(st) => ast_stmt_attrs(st, out),
+        _ => {}
+    }
+}
+
+/// the body of a control statement: the exporter wraps the IR's scope block into an (attribute-free) Block statement
+fn ast_stmt_attrs_body(s: &ast::Statement, out: &mut Vec<String>) {
+    match &s.kind {
+        ast::StatementKind::Block(b) if s.attributes.is_empty() => b.iter().for_each(|x| ast_stmt_attrs(x, out)),
+        _ => ast_stmt_attrs(s, out),
+    }
+}
+
+pub fn ast_stmt(s: &ast::Statement) -> Sx {
+    // attributes: see IrConv::stmt
     match &s.kind {
         ast::StatementKind::Expression(e) => node("expr", vec![ast_expr(e)]),
         ast::StatementKind::AmbiguousDeclarationOrExpression(_, e) => node("expr", vec![ast_expr(e)]),
